@@ -85,6 +85,7 @@ class Potential_Form_Registry(object):
       clash = self._case_clash(d.signature.label, list(potential_forms) + list(self._potential_forms))
       if clash:
         raise Potential_Form_Registry_Exception("Potential form labels must differ by more than case: '{0}' and '{1}'".format(clash, d.signature.label))
+      self._check_not_shadowed(d.signature.label, len(d.signature.parameter_names), "A [Potential-Form] entry")
       func = _Cexptrk_Potential_Function(d)
       pf = Potential_Form(func)
       potential_forms[d.signature.label] = pf
@@ -107,10 +108,28 @@ class Potential_Form_Registry(object):
       if clash:
         raise Potential_Form_Registry_Exception("Potential form labels must differ by more than case: '{0}' and [Table-Form:{1}]".format(clash, d.name))
 
+      self._check_not_shadowed(d.name, 1, "[Table-Form:{}]".format(d.name))
+
       pf = builder.create_potential_form(d)
       table_forms[d.name] = pf
     return table_forms
 
+
+  def _check_not_shadowed(self, label, nargs, what):
+    """A label that the expression language uses for one of its own functions (pow, mod, max, exp... in any case)
+    would, inside a formula, call that function instead of the definition in the file: call a stand-in
+    registered under the label and see whether it is the one that answers."""
+    import cexprtk
+    probe = 12345.678
+    st = cexprtk.Symbol_Table({}, add_constants = True)
+    try:
+      st.functions[label] = lambda *args: probe
+      answered = cexprtk.Expression("{}({})".format(label, ",".join(["1"]*nargs)), st)() == probe
+    except Exception:
+      # names that cannot be registered at all are reported when the forms are registered with each other
+      return
+    if not answered:
+      raise Potential_Form_Registry_Exception("{} has the label of a function built into the expression language: '{}'".format(what, label))
 
   def _case_clash(self, label, existing):
     """Return the label in `existing` that equals `label` when case is ignored (or None)."""
